@@ -1,7 +1,7 @@
 (** Extraction of the executable model (ExtrOcamlBasic only; numbers stay
     extracted inductives). *)
 From Coq Require Import Extraction ExtrOcamlBasic.
-From Oal Require Import Text Position Tag Unify Loader Merge SpecUri Cast Cycles Resolve Lsp Peg Grammar Responses EvalIO Lexer.
+From Oal Require Import Text Position Tag Unify Loader Merge SpecUri Cast Cycles Resolve Lsp Peg Grammar Responses EvalIO Lexer Diag.
 Extraction Language OCaml.
 Separate Extraction
   Text.len8s Text.len16s Text.crlf_wf Text.split_at8 Text.utf16
@@ -18,4 +18,5 @@ Separate Extraction
   Grammar.parse_pure Grammar.parse_memo
   Responses.xfer_responses
   EvalIO.run_eval EvalIO.run_eval_lexical EvalIO.run_typing EvalIO.run_strat EvalIO.run_doc EvalIO.run_doc_base
-  Lexer.tokenize Lexer.spans.
+  Lexer.tokenize Lexer.spans
+  Diag.diagnostics.
